@@ -244,6 +244,22 @@ pub fn gen_claims_body(rng: &mut Rng, cfg: &GenCfg) -> Map<String, Value> {
         let v = gen_value(rng, cfg, 1, &mut budget);
         m.insert(k, v);
     }
+    // claims of real credential profiles (SD-JWT VC: vct, status; OIDC: address, updated_at …):
+    // an implementation may know these names
+    if rng.chance(1, 6) {
+        for name in ["vct", "status", "address", "updated_at", "jti", "aud_hint", "client_id", "nonce", "sd_hash", "vct#integrity", "_sd_hash", "typ"] {
+            if rng.chance(1, 4) && !m.contains_key(name) {
+                let v = match name {
+                    "status" => json!({"status_list": {"idx": rng.below(5000), "uri": "https://issuer.example/statuslists/1"}}),
+                    "address" => json!({"street_address": "1 Main St", "locality": "Town", "country": "DE"}),
+                    "updated_at" => json!(1_700_000_000u64 + rng.below(1000)),
+                    "vct" => json!("https://credentials.example/identity_credential"),
+                    _ => json!(gen_string(rng, &GenCfg { alphabet: 0, ..cfg.clone() }, false)),
+                };
+                m.insert(name.into(), v);
+            }
+        }
+    }
     m
 }
 
